@@ -25,7 +25,7 @@ Print Assumptions C10_guarded_passes_run_clean.
 (* the passes that dereference resolved definitions (they would fail on unresolved references) come after resolveTypes
    and carry the guard - in the pass list of the CURRENT sources *)
 Definition needs_resolution : list string :=
-  ["convertGenericReferences"; "validateResolvedMapKeys"; "validateUnionCases"; "resolveComputedFields";
+  ["convertGenericReferences"; "validateResolvedMapKeys"; "validateUnionCases"; "validateEnums"; "resolveComputedFields";
    "removeUnusedDeclarationPatterns"; "validateGenericParametersUsed"].
 Theorem C10_passes_needing_resolution_are_guarded :
   forallb (fun n => guarded_of n validation_passes &&
